@@ -45,6 +45,9 @@ func checkC12(c *Ctx) {
 	c.Rule("C12-R15", "an 8-bit CSI (0x9b) reaches the mouse parsers: they are tried before the rune parser, or the rune parser leaves the byte alone (under a single-byte charset its decoder accepts or substitutes 0x9b and the introducer is consumed as text)")
 	c.Expect("C12-R15", 1)
 	checkEightBitCSIReachesMouseParsers(c, p, "C12-R15")
+	c.Rule("C12-R16", "every press is eventually followed by a buttonless event: a decoded mouse report is never dropped on the way to the queue (a release decodes to a buttonless event like plain motion; every select that sends a decoded event has only shutdown alternatives; = C05-R1)")
+	c.Expect("C12-R16", 1)
+	c.asRule("C05-R1", "C12-R16", func() { c05Sends(c, p) })
 	c.Rule("C12-R14", "the decimal accumulator of an SGR report saturates instead of wrapping around: a coordinate with more digits than an int holds is far beyond the screen and is clipped to the last column, not the first")
 	c.Expect("C12-R14", 1)
 	checkSgrAccumulatorSaturates(c, p, "C12-R14")
